@@ -67,6 +67,11 @@ func (StdEng) denseRepeat(t, reuse DenseTensor, newShape Shape, axis, size int, 
 	if err != nil {
 		return nil, errors.Wrapf(err, "Repeat reuse is not a *Dense")
 	}
+	if td, ok := t.(*Dense); ok && td.IsMaterializable() {
+		// the block copies below read t's backing array: a view or a lazily transposed
+		// tensor is brought into dense form first
+		t = td.Materialize().(DenseTensor)
+	}
 	var outers int
 	if t.IsScalar() {
 		outers = 1
